@@ -470,6 +470,26 @@ func (m *Monitor) AfterOp(op Op, s Sample) {
 			m.add("C07", "spurious-error", fmt.Sprintf("%s returned %s although nothing failed", op.String(), s.Class))
 		}
 	}
+	// C03 / C07: a sentinel that watches a node of the graph is an always-node: whatever happened in the pass
+	// -- it ran, it failed, it panicked, the pass stopped before reaching it -- it is queued for the next one
+	if isPass && s.Class != "XCycle" && s.Class != "XLimit" && s.Class != "XAlready" && !s.Crashed && !m.Cyclic && !m.Rejected {
+		for id, ref := range e.Nodes {
+			if ref == nil || ref.Kind != "Sentinel" || ref.Watched < 0 {
+				continue
+			}
+			if w := e.Nodes[ref.Watched]; w == nil || w.Recycled || !e.G.Has(w.INode) {
+				continue // the library starts a sentinel when the node it watches enters the graph
+			}
+			if !incr.ExpertNode(ref.INode).IsInRecomputeHeap() {
+				prop, kind := "C03", "sentinel-not-requeued"
+				if s.Class != "XOk" {
+					prop, kind = "C07", "failed-pass-sentinel-not-requeued"
+				}
+				m.add(prop, kind, fmt.Sprintf("sentinel s%d still watches n%d but is not queued after %s (%s)", id, ref.Watched, op.String(), s.Class))
+				break
+			}
+		}
+	}
 	// C06: registered exactly when reachable from an observer (skipped while a failed bind is pending)
 	if !m.failedSince {
 		reach := m.reachable()
